@@ -256,7 +256,9 @@ class Data3D(Block):
         Returns:
             List[MarkerTrack]: list of all tracks in the data block
         """
-        return self._tracks
+        # a copy: changing the returned list (also through `block.tracks += [...]`, which
+        # extends it in place before the setter runs) must not bypass the checks of add_track
+        return list(self._tracks)
 
     @tracks.setter
     def tracks(self, values: Iterable[MarkerTrack]) -> None:
